@@ -860,4 +860,75 @@ def sketch_bounds(ctx):
                           "the position modulus of the sketch is at least 2 for every size the builder accepts, so a row of modulus/2 bytes (R14.9) is never empty and `(hash % modulus)/2` (R14.1, R14.5) is in bounds",
                           g.where(), "lower bound of the modulus over all accepted sizes: %s (%s)%s" % ("unknown" if worst == -1 else worst, shown,
                           "; with the smallest accepted size the rows are empty: the first estimate or increment panics the command worker / the access consumer" if worst is not None and worst < 2 else ""))
+                # ---- R17.16 the modulus is even (a power of two): position p lives in byte p/2 of a row of modulus/2 bytes, so the
+                # largest position modulus-1 is in bounds iff the modulus is even.  Where the modulus is written as the classic
+                # bit-smearing `x |= x >> s1; x |= x >> s2; ..; x + 1` with constant shifts, the chain must cover the word: after
+                # `x |= x >> s` the run of ones below the top bit grows from w to w + s provided s <= w (start w = 1).  A chain
+                # that stops short of the type's width leaves a zero among the low bits for some sizes, x + 1 is then odd, and a
+                # non-power-of-two `counters` indexes one byte past the row.  Other ways of writing the rounding (a loop or fold
+                # over a table of shifts, `next_power_of_two()`) are not judged by this rule (recorded as such).
+                for p in ipaths(F, g, stop=lambda n: False, depth=3):
+                    r = p.ret
+                    if not (r[0] == "agg" and r[1] == skn):
+                        continue
+                    T = peel_casts(dict(r[3]).get(mod_f[0]))
+                    verdict = smear_verdict(F, g, T)
+                    if verdict is None:
+                        ctx.ok("R17.16", "%s|modulus-even|form-not-judged" % n_, "the modulus is not written as a constant-shift smearing chain (e.g. next_power_of_two(), a loop or fold over a shift table): its evenness is not decided here (§6)", g.where(), fmt(T)[:120])
+                    else:
+                        okv, why = verdict
+                        ctx.check(okv, "R17.16", "%s|smearing-covers-the-word" % n_,
+                                  "the bit-smearing that rounds the sketch size up doubles its run of ones at every step until it covers the word, so the modulus is a power of two (even): the last position modulus-1 lies in byte modulus/2 - 1", g.where(), why)
+                    break
     ctx.floor("R17.15", "sketch constructions with a position modulus", n_cons, 1)
+
+
+def smear_verdict(F, g, T):
+    """None if T is not `chain + 1` with chain = nested `a | (a >> const)`; else (ok, explanation)"""
+    from c14 import canon
+    if not (isinstance(T, tuple) and T and T[0] == "binop" and T[1] in ("Add", "AddUnchecked", "AddWithOverflow")):
+        return None
+    chain = None
+    for a, b in ((T[2], T[3]), (T[3], T[2])):
+        if peel_casts(b) == ("const", 1, peel_casts(b)[2] if len(peel_casts(b)) > 2 else None) or (peel_casts(b)[0] == "const" and peel_casts(b)[1] == 1):
+            chain = peel_casts(a)
+    if chain is None:
+        return None
+    shifts = []
+    cur = chain
+    while isinstance(cur, tuple) and cur and cur[0] == "binop" and cur[1] == "BitOr":
+        x, y = peel_casts(cur[2]), peel_casts(cur[3])
+        step = None
+        for a, b in ((x, y), (y, x)):
+            if b[0] == "binop" and b[1] in ("Shr", "ShrUnchecked") and canon(peel_casts(b[2])) == canon(a):
+                c = peel_casts(b[3])
+                if c[0] != "const" or not isinstance(c[1], int):
+                    return None                  # a symbolic shift (table-driven): not judged
+                step = (a, c[1])
+        if step is None:
+            return None
+        shifts.append(step[1])
+        cur = step[0]
+    if not shifts:
+        return None
+    shifts.reverse()                             # execution order
+    base_lb = expr_lb(F, g, cur)
+    w = 1
+    for s_ in shifts:
+        if s_ <= w:
+            w += s_
+    width = 64
+    if w >= width and base_lb is not None and base_lb >= 1:
+        return True, "shifts %s: the run of ones reaches %d >= %d bits; smeared value >= %s" % (shifts, w, width, base_lb)
+    # a concrete size for the report: evaluate the recognised chain for small sizes
+    witness = None
+    for c in range(1, 1 << 18):
+        x = max(c, 2) - 1 if base_lb is not None and base_lb >= 1 else c
+        for s_ in shifts:
+            x |= x >> s_
+        if (x + 1) % 2 == 1:
+            witness = (c, x + 1)
+            break
+    return False, "shifts %s guarantee a run of only %d ones below the top bit (needs %d)%s%s" % (
+        shifts, w, width, "; the smeared value may be 0" if base_lb is None or base_lb < 1 else "",
+        "; e.g. a requested size near %d gives the odd modulus %d: position %d is in byte %d of a %d-byte row" % (witness[0], witness[1], witness[1] - 1, (witness[1] - 1) // 2, witness[1] // 2) if witness else "")
